@@ -66,6 +66,9 @@ type c16case struct {
 	DelayMs int  `json:"exit_delay_ms"` // 0 = flag absent (default 300 ms)
 	Chunks  int  `json:"chunks"`
 	Late    bool `json:"inject_late_reply_per_chunk"`
+	// every probe is answered at once as well (with --rate: the limiter paces the probes, the answers to the
+	// earlier ones arrive while the later ones are still waiting for their turn)
+	AnswerAll bool `json:"answer_every_probe_at_once,omitempty"`
 	// the late reply arrives 130 ms before the delay ends instead of at 40 % of it
 	LateNearEnd bool `json:"late_reply_130ms_before_the_end,omitempty"`
 	// every probe is also answered 1.5 x delay late, i.e. after its chunk's socket has been closed:
@@ -121,6 +124,11 @@ func scenC16(run *vlab.Run, sx, tmp string) {
 		c.Extra = []string{"--srcip", foreignSrcIP}
 		if c.DelayMs > 0 {
 			c.Extra = append(c.Extra, "--exit-delay", fmt.Sprintf("%dms", c.DelayMs))
+		}
+		if c.Chunks == 1 && bits >= 29 && i%5 == 1 {
+			// a rate limit slows sending down, never receiving: late replies are reported all the same
+			c.Extra = append(c.Extra, "--rate", "5/s")
+			c.Late, c.AnswerAll = true, true
 		}
 		if c.Chunks > 1 && c.DelayMs <= 500 && i%2 == 1 {
 			c.AfterClose = true
@@ -216,12 +224,30 @@ func scenC16(run *vlab.Run, sx, tmp string) {
 							}
 						}()
 					}
+					if c.AnswerAll && !(last && c.Late) {
+						fr, rec := replyFor(c.Kind, oracle.LinkEthernet, dec, a, port, prng)
+						if c.Kind == "tcp" && len(c.Cmd) > 1 && c.Cmd[1] != "syn" {
+							rec = recTCP(ipS(a), port, "sa")
+						}
+						mu.Lock()
+						lateRecs = append(lateRecs, rec)
+						mu.Unlock()
+						cr.Inject(d, fr)
+					}
 					if last && c.Late {
 						fr, rec := replyFor(c.Kind, oracle.LinkEthernet, dec, a, port, prng)
 						if c.Kind == "tcp" && len(c.Cmd) > 1 && c.Cmd[1] != "syn" {
 							rec = recTCP(ipS(a), port, "sa") // every tcp scan but the SYN scan prints the flags of the reply
 						}
 						ats := []time.Duration{delay * 4 / 10}
+						if c.AnswerAll {
+							// a burst of late replies: reading them is not paced by --rate
+							// (more of them than the limiter's own start-up allowance of 10)
+							ats = nil
+							for k := 0; k < 30; k++ {
+								ats = append(ats, delay*4/10)
+							}
+						}
 						if c.LateNearEnd {
 							// well before the end, but spread over the last quarter second: a ring that hands frames to the
 							// reader only every few hundred milliseconds loses the ones after its last tick
@@ -336,6 +362,9 @@ func scenC16(run *vlab.Run, sx, tmp string) {
 			}
 			run.Count("c16_wire_runs", 1)
 			run.Count("c16_cmd:"+strings.Join(c.Cmd, " "), 1)
+			if c.AnswerAll {
+				run.Count("c16_rate_limited_runs_with_every_probe_answered", 1)
+			}
 			if c.AfterClose {
 				run.Count("runs_with_replies_after_chunk_end", 1)
 			}
